@@ -133,3 +133,5 @@ def run(ctx):
             ctx.violation(f"MovingWindow(CUSUM), p={p}, bandwidth={b}: transform_scores {sc.tolist()} differs from the two-sided CUSUM computed from the rows {want.tolist()}",
                           {"n": n, "p": p, "bandwidth": b, "X": Xn.tolist(), "scores": sc.tolist(), "definition": want.tolist()},
                           {"what": "scores-vs-definition", "multi_column": p > 1})
+    from harness import helpers as _helpers
+    _helpers.mw_helpers(ctx)
